@@ -334,6 +334,8 @@ func c07(c *Ctx) {
 		}
 	}
 
+	// ---- C07.6 discarding diverged precommits keeps the committed prefix and the durable watermark consistent ----------
+	c02DiscardGuard(c, "C07.6/discard-guard")
 	// ---- C07.4 agreement with the replicator ------------------------------------------------------------------------
 	c07Strings(c)
 }
